@@ -96,11 +96,20 @@ let parse_ty s =
     TMsg (nat_of_int (int_of_string (String.sub s 1 (String.length s - 1))))
   else TScalar (decl_of_name s)
 
+(* well-known wrapper pseudo messages (pilota/src/prost/types.rs): global index -> codec module *)
+let wrappers : (int * codec_module option) list ref = ref []
+
 let parse_schema_line (line : string) : field list =
   let t = { rest = List.filter (fun s -> s <> "") (String.split_on_char ' ' (String.trim line)) } in
   (match next t with "M" -> () | _ -> failwith "schema line must start with M");
-  let _idx = next_int t in
+  let idx = next_int t in
   let nf = next_int t in
+  if nf = 1 && (match t.rest with "w" :: _ -> true | _ -> false) then begin
+    (* M <idx> 1 w 1 <module> : the value is the bare scalar *)
+    ignore (next t); ignore (next_z t);
+    wrappers := (idx, Some (module_of_name (next t))) :: !wrappers;
+    []
+  end else
   let rec fields k acc =
     if k = 0 then List.rev acc else
     let f = match next t with
@@ -219,23 +228,39 @@ let show_msg i v _s =
   let l = len_msg !edv big_fuel !schema i v in
   Printf.sprintf "%s L%s E%s" (string_of_val v) (string_of_z l) (hex_of_bytes e)
 
+let show_wrapper m v _s =
+  Printf.sprintf "%s L%s E%s" (string_of_val v) (string_of_z (wrapper_len m v)) (hex_of_bytes (wrapper_enc m v))
+
 let cmd_dec t =
-  let i = nat_of_int (next_int t) in
+  let ii = next_int t in
+  let i = nat_of_int ii in
   let bytes = bytes_of_hex (next t) in
-  out_m (msg_decode !schema i (mk bytes)) (show_msg i)
+  match List.assoc_opt ii !wrappers with
+  | Some m -> out_m (wrapper_decode m (mk bytes)) (show_wrapper m)
+  | None -> out_m (msg_decode !schema i (mk bytes)) (show_msg i)
 
 let cmd_declen t =
-  let i = nat_of_int (next_int t) in
+  let ii = next_int t in
+  let i = nat_of_int ii in
   let bytes = bytes_of_hex (next t) in
-  out_m (msg_decode_length_delimited !schema i (mk bytes)) (show_msg i)
+  match List.assoc_opt ii !wrappers with
+  | Some m -> out_m (wrapper_decode_length_delimited m (mk bytes)) (show_wrapper m)
+  | None -> out_m (msg_decode_length_delimited !schema i (mk bytes)) (show_msg i)
 
 let cmd_merge t =
-  let i = nat_of_int (next_int t) in
+  let ii = next_int t in
+  let i = nat_of_int ii in
   let b1 = bytes_of_hex (next t) in
   let b2 = bytes_of_hex (next t) in
-  match msg_decode !schema i (mk b1) with
-  | OOk (v, s) -> out_m (msg_merge !schema i v { rb = b2; ra = s.ra }) (show_msg i)
-  | r -> out_m r (show_msg i)
+  match List.assoc_opt ii !wrappers with
+  | Some m ->
+    (match wrapper_decode m (mk b1) with
+     | OOk (v, s) -> out_m (wrapper_merge m v { rb = b2; ra = s.ra }) (show_wrapper m)
+     | r -> out_m r (show_wrapper m))
+  | None ->
+    match msg_decode !schema i (mk b1) with
+    | OOk (v, s) -> out_m (msg_merge !schema i v { rb = b2; ra = s.ra }) (show_msg i)
+    | r -> out_m r (show_msg i)
 
 (* encode a given value of message #i: the model's encode_raw / encoded_len / typing *)
 let cmd_encm t =
